@@ -72,6 +72,8 @@ def probe_sig(p, what, o):
     names = "|".join(o["named"])       # the words of the error text: which statements it names (never its wording) may be matched
     if lab[0] in ("card", "big", "extname"):
         return dict(fam=lab[0], what=what, phase=phase, site=lab[1], kw=lab[2], n=lab[3], vkind=vkind, argkind="", arg="", err=err, names=names)
+    if lab[0] == "argin":      # a closed-list argument under parent lab[1]
+        return dict(fam="argin", what=what, phase=phase, site=lab[1], kw=lab[2], vkind="argument", argkind="", arg=lab[3], err=err, names=names)
     if lab[0] == "arg":
         return dict(fam="arg", what=what, phase=phase, site=lab[2], kw=lab[2], vkind="argument", argkind=lab[1], arg=lab[3], err=err, names=names)
     return dict(fam=lab[0], what=what, phase=phase, site=lab[1], kw=bad[0]["kw"] if bad else "", vkind=vkind, argkind="", arg="", err=err, names=names)
@@ -89,7 +91,7 @@ def run(ctx):
     # every family the spec defines: 1..68 parents, 101.. (argument kind, statement) pairs, 200.. order / revision / keyword table / random
     nrand = 300 if quick else 4000
     g = ctx.tlc("YangStmtGen", "YangStmtGen.cfg", workers=8, timeout=800, heap="8g",
-                consts={"Fams": set_lit(range(1, 800)), "MaxCount": 2 if quick else 3, "NRand": nrand,
+                consts={"Fams": set_lit(range(1, 1000)), "MaxCount": 2 if quick else 3, "NRand": nrand,
                         "RandDepth": 3 if quick else 4, "Thorough": "FALSE" if quick else "TRUE",
                         "BigK": 2 if quick else 6, "HistBad": 3 if quick else 12, "HistOk": 2 if quick else 3},
                 extra=["-seed", str(ctx.seed)])
